@@ -3,6 +3,8 @@ def nontrivial(req, obs):
     f = req.split()
     if f[0] == "sub":
         return sum(1 for t in f[2:] if t == "R") >= 2
+    if f[0] == "reg":
+        return sum(1 for t in f[3:] if t.startswith("ps,")) >= 1 and sum(1 for t in f[3:] if t.startswith("sg,")) >= 1
     if f[0] == "topic":
         return sum(1 for t in f[1:] if t.startswith("PS")) >= 1 and sum(1 for t in f[1:] if t.startswith("SG")) >= 1
     if f[0] == "top":
@@ -27,7 +29,7 @@ PROP = {
         "regions, channel operations, select alternatives; Go mutex/RWMutex/channel/select/close semantics; the composition of the two models is an "
         "argument on paper (M_sub lets senders arrive at any time, which over-approximates what M_topic starts)",
         "structural facts (skeletons of the GoChannel functions, facts/expected) re-extracted from the source on every run",
-        "trace conformance by subset construction (lean/WmModel/Conf.lean, GcConf.lean, GcTopicConf.lean) and the monitors (lean/WmModel/GcMon.lean)",
+        "trace conformance by subset construction (lean/WmModel/Conf.lean, GcConf.lean, GcTopicConf.lean, GcRegConf.lean) and the monitors (lean/WmModel/GcMon.lean)",
         "harness/gc (one event log under one mutex; consumer settlements and cancels logged before the call, hook events inside the critical sections; "
         "liveness bound 30 s per wait; goroutine census by stack dump)",
         "Go race detector",
